@@ -256,9 +256,14 @@ def _view_run_with_a_sibling_inside(col, r, f, text, lf, log):
     fb = [x for x in raw_before if not shown(x)]
     how = r.choice(['del', 'del', 'del-negative', 'clear', 'discard', 'discard', 'remove'])
     victim = None
+    view_before = list(w)
     if how in ('discard', 'remove'):
         # ... or one element that stands behind the sibling, addressed by value
-        victim = list(w)[b - 1]
+        victim = view_before[b - 1]
+        # equality as the library's == sees it, taken while every element is still attached: type and text for nodes
+        keyof = lambda x: (type(x).__name__, common.pr(x)) if isinstance(x, mbase.RawModel) else x
+        vkey = keyof(victim)
+        equal_before = sum(1 for x in view_before if keyof(x) == vkey)
     desc = {'del': f'del {path}.{v}[{a}:{b}]', 'del-negative': f'del {path}.{v}[{a - n}:{b}]', 'clear': f'{path}.{v}.clear()',
             'discard': f'{path}.{v}.discard(<element {b - 1}>)', 'remove': f'{path}.{v}.remove(<element {b - 1}>)'}[how]
     try:
@@ -287,12 +292,14 @@ def _view_run_with_a_sibling_inside(col, r, f, text, lf, log):
     if victim is not None:
         left = list(w)
         gone = n - len(left)
-        if how == 'remove' and gone != 1 or how == 'discard' and gone < 1 or any((x is victim) if isinstance(victim, mbase.RawModel) else False for x in left):
-            col.violation(f'wrong-element-removed:run:{how}', f'{desc}: the view had {n} elements and has {len(left)} now' +
-                          (', the addressed one among them' if any(x is victim for x in left) else ''),
+        # (by value, like a list: remove() takes the first element equal to the argument - an earlier twin, if the view has one)
+        equal_after = sum(1 for x in left if keyof(x) == vkey)
+        if how == 'remove' and (gone != 1 or equal_after != equal_before - 1) or how == 'discard' and (gone != equal_before or equal_after):
+            col.violation(f'wrong-element-removed:run:{how}', f'{desc}: the view had {n} elements ({equal_before} equal to the argument) and has '
+                          f'{len(left)} now ({equal_after} equal to it)',
                           {'text': text, 'lf': lf, 'log': log + [desc], 'after': common.store_text(f.token_store)})
             return False
-        if not isinstance(victim, mbase.RawModel) and how == 'discard' and victim in left:
+        if False:
             col.violation('wrong-element-removed:run:discard', f'{desc}: {victim!r} is still in the view',
                           {'text': text, 'lf': lf, 'log': log + [desc], 'after': common.store_text(f.token_store)})
             return False
